@@ -91,6 +91,7 @@ class Engine:
         self.input_vars = {}
         self.used_vars = set()
         self._seen_terms = set()
+        self.at_path_end = []  # callables run before the path's model is taken (may add assumptions that are part of the harness's contract)
         self.steps = 0
         self.path_checks = []  # (label, verdict)
         self.reached = []
@@ -269,6 +270,8 @@ class Engine:
                 cond = False
         if isinstance(cond, bool):
             if not cond:
+                for cb in self.at_path_end:
+                    cb(self)
                 self._ensure_model()
                 self._violation(label, self.model)
                 self.path_checks.append((label, "violated"))
@@ -278,6 +281,12 @@ class Engine:
         if not isinstance(cond, SymBool):
             raise TypeError(f"check() needs a bool or SymBool, got {type(cond)}")
         r = self._check(z3.Not(t))
+        if r == z3.sat and self.at_path_end:
+            # the counterexample must respect the harness's end-of-path assumptions (e.g. no collisions between ideal-primitive outputs)
+            self._note_vars(t)
+            for cb in self.at_path_end:
+                cb(self)
+            r = self._check(z3.Not(t))
         if r == z3.sat:
             self._note_vars(t)
             self._violation(label, self.solver.model())
@@ -347,6 +356,8 @@ class Engine:
                 except Exception as e:  # target-level exception
                     kind, v = "raise", e
                 try:
+                    for cb in self.at_path_end:
+                        cb(self)
                     self._ensure_model()
                     inputs = self.model_inputs(self.model)
                 except PathAbort:
